@@ -140,6 +140,13 @@ def run(c: checklib.Check):
             ({"producers": [[2, 1], [1, 1]], "gets": ["n", "n", "n"]}, bound),
             ({"producers": [[1], [1], [1]], "gets": ["b", "n", "n"]}, bound - 1),
         ]
+    # put() touches shared state outside the queue's mutex; the scheduler can only separate what has a yield point between:
+    # here every bytecode instruction of put() is one (two reads in one expression can be torn apart)
+    patterns += [
+        ({"producers": [[1, 2]], "gets": ["b", "n"], "ins_yields": True}, 2),
+        ({"producers": [[1, 1, 2]], "gets": ["n", "b", "n"], "ins_yields": True}, 1),
+        ({"producers": [[1], [2]], "gets": ["b", "n"], "ins_yields": True}, 1),
+    ]
     for pat, bnd in patterns:
         n, recs = explore.dfs("checks.scen_queues:srq_program", pat, bnd, jobs=c.jobs, split_depth=4)
         for rec in recs:
@@ -147,7 +154,12 @@ def run(c: checklib.Check):
             if rec["outcome"] != "ok":
                 c.violation("P_C16_NoDeadlock", f"queue program ended with {rec['outcome']}",
                             {"scenario": "checks.scen_queues:srq_program", "params": pat, "choices": rec["choices"]})
-        add([r_ for r_ in recs if r_["outcome"] == "ok"], "dfs")
+        for rec in recs:
+            raised = [e for e in rec["trace"] if e.get("exc")]
+            if raised:
+                c.violation("P_C16_NoException", f"SkipRepeatsQueue.{raised[0]['op']}() raised {raised[0]['exc']} (program {pat})",
+                            {"scenario": "checks.scen_queues:srq_program", "params": pat, "choices": rec["choices"], "trace": rec["trace"]})
+        add([r_ for r_ in recs if r_["outcome"] == "ok" and not any(e.get("exc") for e in r_["trace"])], "dfs")
         total += n
         c.note(f"dfs b={bnd} {pat}: {n} executions, {len(recs)} distinct traces")
     # (c) random schedules on a longer program
